@@ -181,15 +181,44 @@ def fam_previous(chk, NC, tier):
     """auto with previous_chunks: not modelled; property-level checks only"""
     rng = chk.rng
     import dask
-    for _ in range(6000 if tier == "thorough" else 600):
+    import random as _random
+    drng = _random.Random(f"C16-previous-directed-{chk.seed}")
+    for _ in range(6000 if tier == "thorough" else 900):
         rank = rng.choice([1, 2, 2, 3])
         shape = tuple(rng.choice([1, 2, 5, 10, 16, 33, 100, 200, 1000]) for _ in range(rank))
         prev = tuple(rand_chunks(rng, n) for n in shape)
         specs = tuple(rng.choice(["auto", "auto", None, rng.randint(1, n)]) for n in shape)
-        if "auto" not in specs:
-            continue
         dtype = np.dtype(rng.choice(["u1", "i4", "f8"]))
         limit = rng.choice([8, 64, 1000, 4096, 10 ** 5, 2 ** 20])
+        style = drng.random()
+        if style < 0.3:
+            # a dominant small previous chunk size m (the mode) plus one oversized chunk; the limit asks for a non-integral
+            # multiple of m (the proposal is rounded to a multiple of m: it must be rounded DOWN)
+            rank = drng.choice([1, 1, 2])
+            m = drng.choice([2, 3, 5, 10])
+            k = drng.randint(3, 8)
+            big = m * drng.randint(4, 12)
+            shape = tuple(m * k + big for _ in range(rank))
+            prev = tuple((m,) * k + (big,) for _ in range(rank))
+            specs = ("auto",) * rank
+            dtype = np.dtype(drng.choice(["u1", "i4"]))
+            mult = drng.choice([1.3, 1.5, 1.6, 1.7, 2.4, 2.6, 2.8, 3.5, 3.7])
+            limit = max(1, int((m * mult) ** rank * dtype.itemsize))
+        elif style < 0.6:
+            # several 'auto' axes whose previous chunks sit between tolerance**(1/n) and tolerance times the ideal size
+            rank = drng.choice([2, 2, 3])
+            dtype = np.dtype(drng.choice(["u1", "i4", "f8"]))
+            side = drng.choice([8, 10, 16, 20])
+            limit = side ** rank * dtype.itemsize
+            f = drng.choice([1.0, 1.05, 1.1, 1.15, 1.2, 1.24])
+            c = max(1, int(round(side * f)))
+            reps = drng.randint(2, 4)
+            tail = drng.randint(0, c - 1)
+            shape = tuple(c * reps + tail for _ in range(rank))
+            prev = tuple((c,) * reps + ((tail,) if tail else ()) for _ in range(rank))
+            specs = ("auto",) * rank
+        if "auto" not in specs:
+            continue
         try:
             out = NC(specs, shape=shape, limit=limit, dtype=dtype, previous_chunks=prev)
         except Exception as e:  # noqa: BLE001
